@@ -234,7 +234,76 @@ func runC05(c *Ctx) {
 				expectReached = open && (method == "RDG_OUT_DATA" || method == "RDG_IN_DATA")
 				break
 			}
-			variant := c.T.Choose(4)
+			variant := c.T.Choose(6)
+			if variant == 4 {
+				// negotiate on one connection, authenticate on ANOTHER connection from the same
+				// address: the exchange is per connection, so this must not reach the handler
+				what = "ntlm-type3-on-another-connection"
+				ip := fmt.Sprintf("10.6.1.%d", 1+i)
+				w.n++
+				e1, err := c.S.Connect(fmt.Sprintf("x%da", w.n), ip+":47001", c.W.GW.Addr)
+				if err != nil {
+					c.Infra("connect: %v", err)
+					return
+				}
+				e1.Opaque, e1.Peer.Opaque = true, true
+				mk := func(auth string) []byte {
+					return []byte("RDG_OUT_DATA /remoteDesktopGateway/ HTTP/1.1\r\nHost: gw.test\r\nRdg-Connection-Id: {X}\r\nAuthorization: NTLM " + auth + "\r\n\r\n")
+				}
+				e1.Send(mk(b64(codec.NTLMNegotiate())))
+				c.S.Run(func() bool { h, _ := codec.ParseHead(e1.Recv); return h != nil || e1.EOFSeen }, 6000, 20*time.Second)
+				var ch *codec.NTLMChallenge
+				if h, _ := codec.ParseHead(e1.Recv); h != nil {
+					for _, v := range h.Header.Values("Www-Authenticate") {
+						if strings.HasPrefix(v, "NTLM ") {
+							if raw, err := base64.StdEncoding.DecodeString(v[5:]); err == nil {
+								ch, _ = codec.ParseNTLMChallenge(raw)
+							}
+						}
+					}
+				}
+				if ch == nil {
+					if fault == "" {
+						c.S.Fail("C05", "good-credentials-refused", "auth=%v: an NTLM negotiate got no challenge", w.mechs)
+					}
+				} else {
+					nt, lm, sbk := codec.NTLMv2Response("alice", "correct horse", "", ch.ServerChallenge, []byte("clntchal"), ch.TargetInfo, time.Now())
+					r = w.request("RDG_OUT_DATA", []string{"NTLM " + b64(codec.NTLMAuthenticate("alice", "", "WS", nt, lm, sbk))}, ip+":47002")
+					method = "RDG_OUT_DATA"
+					expectReached = false
+				}
+				e1.Shut()
+				break
+			}
+			if variant == 5 {
+				// two clients behind one address run the exchange at the same time
+				what = "two-ntlm-clients-behind-one-address"
+				var plans []*TunPlan
+				for k := 0; k < 2; k++ {
+					w.n++
+					p := &TunPlan{Name: fmt.Sprintf("n%d", w.n), Transport: []string{"ws", "legacy"}[c.T.Choose(2)], From: fmt.Sprintf("10.6.2.%d:%d", 1+i, 47100+k), ConnID: fmt.Sprintf("{C05P-%d}", w.n), CloseAfter: -1,
+						NTLMUser: []string{"alice", "bob"}[k], NTLMPass: []string{"correct horse", "bobs password"}[k]}
+					if w.has("openid") {
+						p.Pkts = []CPkt{PHandshake(ServerCapsOf(true, false), 1, 0)}
+					} else {
+						p.Pkts = []CPkt{PHandshake(0, 1, 0), PTunnelCreateNoCookie()}
+					}
+					plans = append(plans, p)
+				}
+				tuns := StartTunnels(c, plans)
+				c.S.Run(func() bool { return (tuns[0].SentAll() || tuns[0].Client.Failed != "") && (tuns[1].SentAll() || tuns[1].Client.Failed != "") }, 8000, 30*time.Second)
+				c.S.Run(nil, 400, 3*time.Second)
+				for k, t := range tuns {
+					log = append(log, fmt.Sprintf("%s[%d]%s->reached=%v", what, k, fault, t.Client.Ready))
+					if !t.Client.Ready && fault == "" {
+						c.S.Fail("C05", "good-credentials-refused", "auth=%v %s: client %d (%s) with valid credentials did not reach the handler while another client of the same address was authenticating: %s %s", w.mechs, what, k, t.Plan.NTLMUser, t.Client.Failed, t.Client.Describe())
+					}
+					t.Client.CloseAll(false)
+				}
+				c.S.Run(nil, 100, time.Second)
+				r = nil
+				break
+			}
 			user, pass := "alice", "correct horse"
 			switch variant {
 			case 1:
